@@ -2,7 +2,10 @@ module verifharness
 
 go 1.21.0
 
-require Havoc v0.0.0
+require (
+	Havoc v0.0.0
+	golang.org/x/image v0.20.0
+)
 
 require (
 	github.com/agext/levenshtein v1.2.3 // indirect
@@ -30,7 +33,6 @@ require (
 	github.com/ugorji/go/codec v1.2.12 // indirect
 	github.com/zclconf/go-cty v1.15.0 // indirect
 	golang.org/x/crypto v0.27.0 // indirect
-	golang.org/x/image v0.20.0 // indirect
 	golang.org/x/net v0.29.0 // indirect
 	golang.org/x/sys v0.25.0 // indirect
 	golang.org/x/text v0.18.0 // indirect
